@@ -278,8 +278,16 @@ def check_noiseless(x, P, K, NFFT, bins, method, sampling=1.0):
         bad.append(('svals_rank/eigen/' + tag, 'not exactly K non-negligible singular values: %r' % (S / S[0]).tolist()))
     # class level, on the axis frequencies() reports
     cls = pmusic if method == 'music' else pev
-    p = cls(x, P, NSIG=K, NFFT=NFFT, sampling=sampling)
-    p()
+    # the object is fresh or reached through a history (other data first, a non-default representation, staleness, scale_by_freq toggled):
+    # derived from the case itself; the scaling only multiplies the pseudo-spectrum by a positive constant
+    from props import _estimators as E
+    route, sbf = E.route_for(x, P, K, NFFT, method)
+    try:
+        p = E.via(lambda d, n, s_, b: cls(d, P, NSIG=K, NFFT=n, sampling=s_, scale_by_freq=b), x, NFFT, sampling, sbf, route)
+    except Exception:
+        p = cls(x, P, NSIG=K, NFFT=NFFT, sampling=sampling, scale_by_freq=sbf); route = 'fresh'      # the OTHER record of the route is outside the estimator's domain
+    if route == 'fresh':
+        p()
     cp = np.asarray(p.psd, dtype=float); f = np.asarray(p.frequencies(), dtype=float)
     where = cls.__name__
     if len(cp) != len(f):
